@@ -369,7 +369,7 @@ func runC07(c *Ctx) error {
 			info.Deb.Fields = map[string]string{"Bugs": "https://bugs.example.com", "bugs": "lower", "Vcs-Git": "git://x", "vcs-git": "git://y", "X-A": "1", "X-B": "2", "X-C": "3", "x-a": "4"}
 			info.IPK.Fields = map[string]string{"Source": "upper", "source": "lower", "SOURCE": "caps", "Custom": "c", "custom": "d", "Extra-One": "1", "Extra-Two": "2", "extra-one": "3"}
 			info.Depends = []string{"libc6", "bash (>= 4)", "zlib"}
-			info.Provides = []string{"virt-a", "virt-b"}
+			info.Provides = []string{"virt-a", "", "virt-b"} // an empty item (reachable through the library API) is dropped by every format
 			info.IPK.Alternatives = []nfpm.IPKAlternative{{Priority: 100, Target: "/usr/bin/x", LinkName: "/usr/bin/y"}, {Priority: 5, Target: "t", LinkName: "l"}}
 			info.Deb.Triggers.Interest = []string{"trig-a", "trig-b"}
 		}
@@ -396,7 +396,7 @@ func runC07(c *Ctx) error {
 	}
 
 	// ---------------- family 1: rebuild in process ----------------
-	fam := c.Rep.Family("rebuild-in-process", "one in three specs carries custom control fields kept in maps, with names differing only in case; random content lists (genPkgSpec: files, configs, globs, dirs, symlinks, trees, ghosts, docs, per-entry file_info incl. explicit mtimes, deb/rpm compressors; the first spec carries one compressible file larger than every compressor block) with mtime forced to 1700000000, rpm build host fixed, optional scripts, x 5 formats; package A is rebuilt immediately, after the wall-clock second changed (one 1.2 s sleep), under GOMAXPROCS 1/2/4/16, and from the tree root with every source path rewritten to a relative one; every rebuild must be byte-identical to A; one evaluation per (spec, format, variant); non-trivial = A built and has more than one payload member")
+	fam := c.Rep.Family("rebuild-in-process", "one in three specs carries custom control fields kept in maps, with names differing only in case; random content lists (genPkgSpec: files, configs, globs, dirs, symlinks, trees, ghosts, docs, per-entry file_info incl. explicit mtimes, deb/rpm compressors; the first spec carries one compressible file larger than every compressor block) with mtime forced to 1700000000, rpm build host fixed, optional scripts, x 5 formats; package A is rebuilt immediately, twice through Config.Get on one configuration held in memory, after the wall-clock second changed (one 1.2 s sleep), under GOMAXPROCS 1/2/4/16, and from the tree root with every source path rewritten to a relative one; every rebuild must be byte-identical to A; one evaluation per (spec, format, variant); non-trivial = A built and has more than one payload member")
 	n := c.N(25, 400)
 	var built []*c07Built
 	evalKeyExtra := "" // distinguishes the GOMAXPROCS values inside the gomaxprocs variant
@@ -469,6 +469,17 @@ func runC07(c *Ctx) error {
 			}
 			data2, err2 := BuildPkg(f, s.Info())
 			compare(b, "immediate", data2, err2)
+			// a library user's loop: one configuration in memory, the effective settings asked of it for every build
+			// (Config.Get, WithDefaults, Package – twice)
+			cfg := &nfpm.Config{Info: *s.Info()}
+			for round := 0; round < 2; round++ {
+				gi, gerr := cfg.Get(f)
+				if gerr != nil {
+					break
+				}
+				data3, err3 := BuildPkg(f, nfpm.WithDefaults(gi))
+				compare(b, fmt.Sprintf("through-one-configuration-in-memory:%d", round+1), data3, err3)
+			}
 			built = append(built, b)
 			if b.err == nil && len(fam.Samples) < 2 && b.nontr {
 				fam.Sample(map[string]any{"input": b.input(), "bytes": len(b.data)})
